@@ -20,6 +20,15 @@ CHECKS = {
              "and are compared with their specs on generated histories each run. Go is run on the same histories and compared with both.",
         note=NOTE_COMMON + "Refinement is proved for the geom2 types; for MultiPoint and MultiPolygon only the per-run comparison with the spec machine is available (partial).",
     ),
+    "C08": dict(
+        technique="Lean 4 theorems over any linear order (fold of min/max is the glb/lub; Overlaps = interval arithmetic) + differential correspondence with a semantic X/Y/Z/M oracle",
+        text="Theorems: Bounds() of every flat geometry is the fold of coordinate-wise min/max (C08_bounds_flat_fold), that fold is exactly the greatest "
+             "lower / least upper bound per slot over any linear order (C08_fold_min_is_glb, C08_fold_max_is_lub), and the Overlaps loop returns true iff "
+             "every dimension's closed intervals share a point (C08_overlaps_iff). Extend over layout mixes and nested collections is modelled "
+             "(extendLayout's slot moves, the XYM-into-XYZM loop, recursion into collections) and compared with Go on every run; the oracle places each "
+             "ordinate in its semantic dimension and demands the exact min/max there, which decides order-independence and Z/M separation on explored inputs.",
+        note=NOTE_COMMON + "Partial: the order-independence statement for Extend sequences is not yet a theorem (oracle + correspondence only).",
+    ),
 }
 
 _PENDING = "check not built yet in this session (work in progress; see DESIGN.md §9 build order)"
